@@ -3,7 +3,7 @@ random.Random; the generator looks at the *observed* repository (Snap) to pick
 mostly-valid arguments, plus a separate stream of invalid ones."""
 import re
 
-from hist import (Edit, c_add, c_branch, c_branch_delete, c_branch_list, c_branch_rename, c_cat_file,
+from hist import (c_branch_flags, Edit, c_add, c_branch, c_branch_delete, c_branch_list, c_branch_rename, c_cat_file,
                   c_commit, c_config, c_hash_object, c_init, c_log, c_ls_files, c_reflog, c_reset,
                   c_restore, c_rev_parse, c_rm, c_status, c_switch, c_switch_create, c_update_ref,
                   c_write_tree)
@@ -12,7 +12,7 @@ from hist import (Edit, c_add, c_branch, c_branch_delete, c_branch_list, c_branc
 COMPONENTS = [b"a", b"b", b"d", b"ad", b"d-old", b"d.c", b"d0", b"d e", b"d(", b"lib", b"lib.go",
               b"lib-old", b"test", b"test.c", b"test-data", b"x+y", b"_u", b"A", "été".encode(),
               b"d)", b"d!", b"sub", b"f1", b"f2", b"out", b"about", b"a.log", b"a.logx", b"n.txt",
-              b"src", b"layout", b"50%off", b"k%s"]
+              b"src", b"layout", b"50%off", b"k%s", b" d", b"e "]
 # directory/file names one of which is a proper prefix of the other, the extension starting with a byte
 # above '/': they are neighbours in the staging area with nothing between "<x>/..." and "<x><ext>/..."
 PREFIX_PAIRS = [(b"a", b"ad"), (b"a", b"about"), (b"d", b"d0"), (b"lib", b"lib2"), (b"test", b"tests"),
@@ -236,6 +236,19 @@ def gen_hostile(rng, st):
         return c_config(rng.choice([b"user", b"a.b.c", b"user.name"]), b"v")
     if k == 14:
         return c_add([rng.choice([b"nope", b"no/such/file"])])
+    if k == 15 or rng.random() < 0.3:
+        # two modes of `branch` at once: always refused, nothing may change
+        others = [b for b in st.branches if b != st.head] or [b"nope"]
+        combo = rng.randrange(5)
+        if combo == 0:
+            return c_branch_flags(rename=rng.choice(BRANCHES), delete=rng.choice(others + [b"nope"]))
+        if combo == 1:
+            return c_branch_flags(names=[rng.choice(BRANCHES)], delete=rng.choice(others))
+        if combo == 2:
+            return c_branch_flags(names=[rng.choice(BRANCHES)], rename=rng.choice(BRANCHES))
+        if combo == 3:
+            return c_branch_flags(lst=True, delete=rng.choice(others))
+        return c_branch_flags(names=[rng.choice(BRANCHES), rng.choice(BRANCHES)])
     return c_log(rng.choice([0, -1, 1, 100]))
 
 
